@@ -315,6 +315,72 @@ class AnnRewriter(ast.NodeTransformer):
         return ast.copy_location(ast.Assign(targets=[n.target], value=n.value, type_comment=None), n)
 
 
+class LazyTemplateRewriter(ast.NodeTransformer):
+    """A read-only object built on first use - `t = None` ... `if t is None: t = C(<constants>)` ... `getattr(t, n)` / `t.attr` - is, for everything
+    the rules ask, a `C(<constants>)` built where it is used: the guard only saves constructing it again.  Rewritten to the unconditional
+    `t = C(<constants>)` at the guard, but only when the local is never anything else (one `None` store, one guarded constructor store), the
+    constructor's arguments are constants / module-level names / a starred module-level name, and every use of the local is an attribute
+    read, the first argument of getattr / hasattr / isinstance / type, or the `is None` test itself (nothing can mutate the object)."""
+
+    def __init__(self):
+        self.rewritten = 0
+
+    def visit_FunctionDef(self, fn):
+        self.generic_visit(fn)
+        stores, loads = {}, {}
+        par = {}
+        for n in ast.walk(fn):
+            for c in ast.iter_child_nodes(n):
+                par[c] = n
+        for n in ast.walk(fn):
+            if isinstance(n, ast.Name):
+                (stores if isinstance(n.ctx, ast.Store) else loads).setdefault(n.id, []).append(n)
+        params = {a.arg for a in fn.args.posonlyargs + fn.args.args + fn.args.kwonlyargs} | {a.arg for a in (fn.args.vararg, fn.args.kwarg) if a}
+        for name, sts in stores.items():
+            if len(sts) != 2 or name in params:
+                continue
+            asg = [par.get(x) for x in sts]
+            if not all(isinstance(a, ast.Assign) and len(a.targets) == 1 and a.targets[0] is x for a, x in zip(asg, sts)):
+                continue
+            none = [a for a in asg if isinstance(a.value, ast.Constant) and a.value.value is None]
+            ctor = [a for a in asg if isinstance(a.value, ast.Call) and isinstance(a.value.func, ast.Name) and a.value.func.id[:1].isupper()]
+            if len(none) != 1 or len(ctor) != 1:
+                continue
+            guard = par.get(ctor[0])
+            if not (isinstance(guard, ast.If) and not guard.orelse and guard.body == [ctor[0]] and isinstance(guard.test, ast.Compare) and len(guard.test.ops) == 1
+                    and isinstance(guard.test.ops[0], ast.Is) and isinstance(guard.test.left, ast.Name) and guard.test.left.id == name
+                    and isinstance(guard.test.comparators[0], ast.Constant) and guard.test.comparators[0].value is None):
+                continue
+            c = ctor[0].value
+
+            def plain(a):
+                if isinstance(a, ast.Starred):
+                    a = a.value
+                return isinstance(a, ast.Constant) or (isinstance(a, ast.Name) and a.id not in stores and a.id not in params)
+            if not all(plain(a) for a in c.args) or not all(k.arg is not None and plain(k.value) for k in c.keywords):
+                continue
+            ok = True
+            for u in loads.get(name, []):
+                pu = par.get(u)
+                if u is guard.test.left:
+                    continue
+                if isinstance(pu, ast.Attribute) and pu.value is u and isinstance(pu.ctx, ast.Load) and not (isinstance(par.get(pu), ast.Call) and par[pu].func is pu):
+                    continue
+                if isinstance(pu, ast.Call) and isinstance(pu.func, ast.Name) and pu.func.id in ("getattr", "hasattr", "isinstance", "type") and pu.args and pu.args[0] is u:
+                    continue
+                ok = False
+            if not ok:
+                continue
+            owner = par.get(guard)
+            for field in ("body", "orelse", "finalbody"):
+                lst = getattr(owner, field, None)
+                if isinstance(lst, list) and guard in lst:
+                    lst[lst.index(guard)] = ctor[0]
+                    self.rewritten += 1
+        return fn
+    visit_AsyncFunctionDef = visit_FunctionDef
+
+
 def rewrite(tree: ast.AST) -> int:
     """in place; -> number of match statements rewritten"""
     a = AnnRewriter()
@@ -325,5 +391,7 @@ def rewrite(tree: ast.AST) -> int:
     if w.sup or w.cm or w.mod:
         w.visit(tree)
         w.drop_unused_managers(tree)
+    lz = LazyTemplateRewriter()
+    lz.visit(tree)
     ast.fix_missing_locations(tree)
-    return r.rewritten + w.rewritten + a.rewritten
+    return r.rewritten + w.rewritten + a.rewritten + lz.rewritten
